@@ -523,13 +523,68 @@ func engineOverlay(repo string, pkgs []*pkgOverlay) (map[string][]byte, error) {
 		}
 		ov[filepath.Join(repo, p.Dir, "zz_verif_api.go")] = []byte(fmt.Sprintf(engineAPITemplate, p.PkgName))
 	}
+	for path, content := range instrumentedSources(repo, pkgs, true) {
+		ov[path] = content
+	}
 	return ov, nil
 }
 
-// nativeInstrumentation: scheduling points of the engine's library models, mirrored in the native build.
-var nativeInstrumentation = []struct{ pkgDir, file, anchor, before string }{
+// Source instrumentation (overlay only, /repo is never touched; regenerated from the current source on
+// every run; an anchor that is not found leaves the point out).
+//   - nativeOnly entries mirror a scheduling point that the engine models inside a library intrinsic;
+//   - the others are applied to the engine's load AND to the native build: a call to verifHook (a function
+//     the overlay adds to the instrumented package) is inserted before every occurrence of the anchor. The
+//     engine intercepts verifHook as a harness-level scheduling point; natively the harness package installs
+//     verifSched as the hook.
+type srcInstr struct {
+	harnessPkg string // applied when this package hosts harnesses of the check
+	pkgDir     string // package whose source is instrumented
+	pkgName    string
+	file       string
+	anchor     string
+	before     string
+	nativeOnly bool
+	hookImport string // import path of pkgDir (for the native hook installation)
+}
+
+var sourceInstrumentation = []srcInstr{
 	// engine: (*archive/tar.Reader).Next is a scheduling point under tar_next_sched (the stream may stall)
-	{"tar", "fs.go", "header, err := archive.Next()", "verifSched(\"tar.next\"); "},
+	{harnessPkg: "tar", pkgDir: "tar", file: "fs.go", anchor: "header, err := archive.Next()", before: "verifSched(\"tar.next\"); ", nativeOnly: true},
+	// the blob mutex: interleavings inside one file operation (C15 lin.blob, enabled by blob_lock_sched)
+	{harnessPkg: "mem", pkgDir: "keyvalue/blob", pkgName: "blob", file: "bytes.go", anchor: "b.mu.Lock()", before: "verifHook(\"blob.lock\"); ",
+		hookImport: "github.com/hack-pad/hackpadfs/keyvalue/blob"},
+}
+
+// instrumentedSources returns path -> new content for the instrumentation that applies to the given harness
+// packages (engine = true: the load of the symbolic executor; false: the native test build).
+func instrumentedSources(repo string, pkgs []*pkgOverlay, engine bool) map[string][]byte {
+	out := map[string][]byte{}
+	for _, p := range pkgs {
+		for _, ins := range sourceInstrumentation {
+			if ins.harnessPkg != p.Dir || (engine && ins.nativeOnly) {
+				continue
+			}
+			src := filepath.Join(repo, ins.pkgDir, ins.file)
+			b, err := os.ReadFile(src)
+			if err != nil {
+				continue
+			}
+			n := bytes.Count(b, []byte(ins.anchor))
+			if n == 0 || (ins.nativeOnly && n != 1) {
+				continue
+			}
+			out[src] = bytes.ReplaceAll(b, []byte(ins.anchor), []byte(ins.before+ins.anchor))
+			if !ins.nativeOnly {
+				hook := "package " + ins.pkgName + "\n\n// VerifHook is installed by the harness package of a native replay (verif instrumentation).\nvar VerifHook func(string)\n\nfunc verifHook(l string) {\n\tif VerifHook != nil {\n\t\tVerifHook(l)\n\t}\n}\n"
+				out[filepath.Join(repo, ins.pkgDir, "zz_verif_hook.go")] = []byte(hook)
+				if !engine {
+					inst := "package " + p.PkgName + "\n\nimport verifhooked \"" + ins.hookImport + "\"\n\nfunc init() {\n\tverifhooked.VerifHook = func(l string) {\n\t\tif verifM.Params[\"blob_lock_sched\"] != 0 {\n\t\t\tverifSched(l)\n\t\t}\n\t}\n}\n"
+					out[filepath.Join(repo, p.Dir, "zz_verif_hookinit.go")] = []byte(inst)
+				}
+			}
+		}
+	}
+	return out
 }
 
 // NativeBuild compiles one test binary per harness package.
@@ -570,25 +625,12 @@ func buildNative(repo, workDir string, pkgs []*pkgOverlay) *NativeBuild {
 		os.WriteFile(tst, []byte(fmt.Sprintf(nativeTestTemplate, p.PkgName)), 0o644)
 		replace[filepath.Join(repo, p.Dir, "zz_verif_replay_test.go")] = tst
 	}
-	// source instrumentation for native replays (overlay only, /repo is not touched): a call to the harness'
-	// scheduling point is inserted where the engine models one inside the library. Regenerated from the
-	// current source on every run; if the anchor line is not found exactly once the point is simply absent
-	// natively (schedules through it are then retried free-running).
-	for _, p := range pkgs {
-		for _, ins := range nativeInstrumentation {
-			if ins.pkgDir != p.Dir {
-				continue
-			}
-			src := filepath.Join(repo, p.Dir, ins.file)
-			b, err := os.ReadFile(src)
-			if err != nil || bytes.Count(b, []byte(ins.anchor)) != 1 {
-				continue
-			}
-			nb := bytes.Replace(b, []byte(ins.anchor), []byte(ins.before+ins.anchor), 1)
-			cp := filepath.Join(workDir, strings.ReplaceAll(p.Dir, "/", "_")+"_instr_"+ins.file)
-			os.WriteFile(cp, nb, 0o644)
-			replace[src] = cp
-		}
+	k := 0
+	for path, content := range instrumentedSources(repo, pkgs, false) {
+		cp := filepath.Join(workDir, fmt.Sprintf("instr%d_%s", k, filepath.Base(path)))
+		k++
+		os.WriteFile(cp, content, 0o644)
+		replace[path] = cp
 	}
 	ovb, _ := json.Marshal(map[string]interface{}{"Replace": replace})
 	ovFile := filepath.Join(workDir, "overlay.json")
